@@ -280,10 +280,15 @@ impl PersistWal {
     /// This guarantees that either the old or new WAL exists at all times -
     /// a crash at any point cannot lose other shards' data.
     pub fn remove_shard_entries(&mut self, shard_name: &str) -> StorageResult<()> {
-        let entries = self.read_all()?;
+        // Close the writer before reading and manipulating the file. In batched mode
+        // appended lines may still sit in the writer's user-space buffer: they must reach
+        // the file first, otherwise `read_all` does not see them and the other shards'
+        // acknowledged entries are dropped from the rewritten WAL.
+        if let Some(mut writer) = self.writer.take() {
+            writer.flush()?;
+        }
 
-        // Close writer before manipulating the file
-        self.writer = None;
+        let entries = self.read_all()?;
 
         let surviving: Vec<&WalEntry> = entries.iter().filter(|e| e.shard != shard_name).collect();
 
@@ -525,6 +530,21 @@ mod tests {
 
         // entries_written should reflect the rewritten count
         assert_eq!(wal.entries_written(), 2);
+    }
+
+    #[test]
+    fn test_wal_remove_shard_keeps_buffered_entries_of_other_shards() {
+        let temp = TempDir::new().unwrap();
+        let mut wal = PersistWal::new(temp.path().to_path_buf()).unwrap();
+        // batched mode: lines stay in the BufWriter until it is flushed
+        wal.append_buffered("db:a", &Update::insert(Tuple::from_pair(1, 2), 1))
+            .unwrap();
+        wal.append_buffered("db:b", &Update::insert(Tuple::from_pair(3, 4), 2))
+            .unwrap();
+        wal.remove_shard_entries("db:a").unwrap();
+        let left = wal.read_all().unwrap();
+        assert_eq!(left.len(), 1);
+        assert_eq!(left[0].shard, "db:b");
     }
 
     #[test]
